@@ -429,6 +429,7 @@ def check_c14(pid, tier, build, props):
     by = {}
     evaluated = 0
     skipped = 0
+    region_faults = with_regions = 0
     for case, meta, res in out:
         if res is None:
             if meta and "harness_error" in meta:
@@ -438,6 +439,17 @@ def check_c14(pid, tier, build, props):
         evaluated += 1
         key = "%s/status%d" % (meta["op"], meta["status"])
         by[key] = by.get(key, 0) + 1
+        if meta.get("mirror"):
+            region_faults += 1
+            if len(violations) < 5:
+                spec, op = case
+                violations.append({
+                    "graph": [list(map(str, s_)) for s_ in spec], "operation": list(map(str, op)),
+                    "witness": {"reason": "a predecessor that is a region was rerouted but the exiting block inside it "
+                                          "was not rerouted alike: the arc as control really takes it is not the one "
+                                          "the region block declares", "regions": meta["mirror"]}})
+        if any(k_ in ("region", "region2") for _, _, _, k_ in case[0]):
+            with_regions += 1
         if meta["status"] == 3 and len(violations) < 5:
             violations.append({"case": repr(case)[:600], "witness": {"reason": "primitive raised an unexpected exception"}})
         elif res != [1, 1] and len(violations) < 5:
@@ -464,6 +476,7 @@ def check_c14(pid, tier, build, props):
                 "size 3. One evaluation = one primitive call compared order-exactly with the model (and, for the "
                 "control-block variant, checked by cb_ok); non-trivial = not join_returns; distinct by (graph, call)",
         "calls_by_primitive_and_status": by, "skipped": skipped,
+        "calls_on_graphs_with_region_blocks": with_regions, "region_mirror_faults": region_faults,
         "samples": [{"graph": [list(map(str, s)) for s in cases[len(cases) // 2][0]],
                      "operation": list(map(str, cases[len(cases) // 2][1]))}],
         "traces_validated_against_impl": evaluated,
@@ -479,8 +492,9 @@ def check_c14(pid, tier, build, props):
                        "untouched. The same is also decided per result by the verified checker cb_ok. Tie: exact, "
                        "order-faithful correspondence of all four primitives incl. KeyError/AssertionError outcomes. "
                        "Not proved: path preservation under arbitrary SEQUENCES of edits (decided per pipeline run by "
-                       "C01's checker); region predecessors are modelled at the level of the region's own targets "
-                       "(their exiting blocks are covered by C04's checker).",
+                       "C01's checker); region predecessors (one and two levels deep) are modelled at the level of "
+                       "the region's own targets; that the exiting block inside is rerouted alike is checked on the "
+                       "implementation's result after every call (and, in pipeline output, by C04's checker).",
     }
     return {"coverage": coverage, "violations": violations, "problems": problems, "level": "proof",
             "wall_s": t.s(), "broken_name": "Props/C14.v / correspondence implementation = Edits model (run_c14)"}
